@@ -829,6 +829,17 @@ def _multi_sum(vars_, mono):
         for m3, c3 in m2.terms:
             out = out + _multi_sum(others + [(sv, total)], m3) * c3
         return out
+    # (a'') a variable that occurs nowhere but whose bound depends on another variable:
+    #       Σ_b Σ_{j<size(b)} t(b) = Σ_b size(b) t(b)
+    nameset = frozenset(names)
+    for (v, b), n in zip(vars_, names):
+        if (b.syms & nameset) and not any(n in a.syms for a, _p in mono) \
+                and not any(n in b2.syms for (_v2, b2) in vars_):
+            others = [(v2, b2) for (v2, b2), n2 in zip(vars_, names) if n2 != n]
+            out = ZERO
+            for m3, c3 in (Poly({mono: Fraction(1)}) * b).terms:
+                out = out + _multi_sum(others, m3) * c3
+            return out
     # (b) variables that do not occur; factors independent of every variable
     nameset = frozenset(names)
     used = set()
@@ -851,9 +862,21 @@ def _multi_sum(vars_, mono):
     factor = factor * Poly({outer: Fraction(1)})
     if not inner:
         # only bounds depend on variables (e.g. Σ_b size(b)) -- keep as nested raw sums
+        # order: a variable whose bound mentions another variable is summed first (inner)
+        order = []
+        rest = list(keep)
+        ns = frozenset(n for _, _, n in keep)
+        while rest:
+            for it in rest:
+                if not ((it[1].syms & ns) - frozenset(x[2] for x in order)):
+                    order.append(it)
+                    rest.remove(it)
+                    break
+            else:
+                raise ValueError("cyclic bounds in nested sum")
         t = ONE
-        for v, b, n in reversed(keep):
-            t = close_raw("sum", v, b, t) if n in t.syms or True else t * b
+        for v, b, n in reversed(order):
+            t = _sum_level(v, b, n, t)
         return factor * t
     # (b') Σ_{b<B} size(b) = total length of the partitioned axis
     if len(keep) == 1 and len(inner) == 1 and inner[0][1] == 1 and inner[0][0].kind == "app" \
